@@ -26,7 +26,8 @@
 (*             >= max index + 1 always, and the operation-specific rule at   *)
 (*             creation (copy/inverse/repeat keep it, + takes the max, trim  *)
 (*             = qubits in use, reindex = max new index + 1, stack = sum).   *)
-(* The validator carries, per slot, the annotation Ann (fixedN, wdoc, prov). *)
+(* The validator carries, per slot, the annotation Ann (fixedN, wdoc, prov,   *)
+(* qidx).                                                                    *)
 (* The verdict is the list of <<step, clause, slot, provenance>>.            *)
 (***************************************************************************)
 EXTENDS C11Defs, Json, IOUtils
@@ -104,16 +105,24 @@ ExpWidth(act, prev) ==
        [] act.op = "add" -> Max2(a.width, MaxIdx(<<act.g>>) + 1)
        [] OTHER -> -1
 
-NewAnn(act, anns) ==
+\* Fixed-width objects stay in the documented zone under trim_qubits (fixed at the trimmed width; free when nothing is left)
+\* and reindex_qubits (fixed, wide enough for the new indices = max new index + 1): their width must then equal the fixed
+\* width exactly, add_gate beyond it must raise, and copy / inverse / * / remove_* keep it.
+NewAnn(act, anns, prev) ==
   LET a == anns[act.o]
       b == anns[act.o2]
+      fixedDoc == a.wdoc /\ a.fixedN > 0
   IN CASE act.op = "new" -> Ann(act.n, TRUE, "")
-       [] act.op = "add" -> a
-       [] act.op \in {"repeat", "copy", "inverse"} -> a
+       [] act.op = "add" -> IF a.fixedN > 0 THEN AnnQ(a, a.qidx \cup QSet(act.g)) ELSE a
+       [] act.op \in {"repeat", "copy", "inverse"} -> Ann(a.fixedN, a.wdoc, a.prov)
        [] act.op = "concat" -> IF Plain(a) /\ Plain(b) THEN FreeAnn ELSE Ann(0, FALSE, Prov2(a, b))
        [] act.op = "stack" -> IF Plain(a) /\ Plain(b) THEN FreeAnn ELSE Ann(0, FALSE, Prov2(a, b))
-       [] act.op = "trim" -> IF Plain(a) THEN a ELSE Ann(0, FALSE, IF a.prov # "" THEN a.prov ELSE "after-trim-of-fixed-width")
-       [] act.op = "reindex" -> IF Plain(a) THEN a ELSE Ann(0, FALSE, IF a.prov # "" THEN a.prov ELSE "after-reindex-of-fixed-width")
+       [] act.op = "trim" -> IF Plain(a) THEN a
+                             ELSE IF fixedDoc THEN Ann(Cardinality(Used(GatesOf(prev[act.o]))), TRUE, "")
+                             ELSE Ann(0, FALSE, a.prov)
+       [] act.op = "reindex" -> IF Plain(a) THEN a
+                                ELSE IF fixedDoc THEN AnnQ(Ann(SetMax(ToSet(act.new)) + 1, TRUE, ""), ToSet(act.new))
+                                ELSE Ann(0, FALSE, a.prov)
        [] act.op \in {"small", "redundant"} -> IF act.rq THEN FreeAnn ELSE Ann(0, FALSE, a.prov)
        [] OTHER -> Ann(0, FALSE, a.prov)
 
@@ -146,8 +155,8 @@ StepV(S, st, k) ==
      \o (IF st.raised THEN <<>>
          ELSE Flatten(TLCEval([s \in 1..n |->
                  IF cur[s].live /\ (s = w \/ cur[s] # prev[s])
-                 THEN Tag(k, MetaClauses(cur[s], IF s = w THEN NewAnn(act, S.anns) ELSE S.anns[s]), s,
-                          (IF s = w THEN NewAnn(act, S.anns) ELSE S.anns[s]).prov)
+                 THEN Tag(k, MetaClauses(cur[s], IF s = w THEN NewAnn(act, S.anns, prev) ELSE S.anns[s]), s,
+                          (IF s = w THEN NewAnn(act, S.anns, prev) ELSE S.anns[s]).prov)
                  ELSE <<>>])))
      \o Flatten(TLCEval([r \in 1..Len(st.results) |-> Tag(k, MetaClauses(st.results[r], FreeAnn), 0, pv)]))
 
@@ -157,7 +166,7 @@ Taint(a) == Ann(0, FALSE, IF a.prov # "" THEN a.prov ELSE "after-unexpected-writ
 NextS(S, st) ==
   LET w  == Written(st.act)
       n  == Len(st.heap)
-      a1 == IF st.raised \/ w = 0 THEN S.anns ELSE [S.anns EXCEPT ![w] = NewAnn(st.act, S.anns)]
+      a1 == IF st.raised \/ w = 0 THEN S.anns ELSE [S.anns EXCEPT ![w] = NewAnn(st.act, S.anns, S.dumps)]
   IN [dumps |-> st.heap,
       anns  |-> TLCEval([s \in 1..n |-> IF st.heap[s] # S.dumps[s] /\ (st.raised \/ s # w) THEN Taint(a1[s]) ELSE a1[s]])]
 
